@@ -28,6 +28,7 @@ type c16Item struct {
 	key  string
 	vec  *c16Vec
 	mvec *c16MapVec
+	lvec *c16LifeVec
 	rng  *rand.Rand
 	d    *c16Depl // deployment the token is presented to
 
@@ -38,6 +39,7 @@ type c16Item struct {
 	assertion  *saml.Assertion
 	stmts      [][]c16ConcAttr
 	authn      []string
+	ends       c16LifeEnds
 	expSubject string
 	sym        map[string]string // map vectors: symbol -> concrete string
 	token      string            // string presented
@@ -144,6 +146,36 @@ func c16PrepareMap(env *c16Env, it *c16Item) {
 	}
 }
 
+// c16PrepareLife concretises an assertion with IdP-stated ends around the mint time nowSec - age.
+func c16PrepareLife(env *c16Env, it *c16Item, nowSec int64) {
+	v, rng := it.lvec, it.rng
+	it.d = env.depl(v.Cfg, "this", spRoot)
+	it.minter = it.d
+	it.cookie = it.d.cookie
+	it.mintAge = v.In.Age
+	names := c16Pick(rng, c16AttrNames, 3)
+	vals := c16Pick(rng, c16AttrValues, 2)
+	it.sym = map[string]string{"F1": names[0], "N1": names[1], "N2": names[2], "SI": "SessionIndex", "a": vals[0], "b": vals[1],
+		"s1": fmt.Sprintf("_si%08x", rng.Uint32()), "s2": fmt.Sprintf("_sj%08x", rng.Uint32()), "": ""}
+	for _, st := range v.In.Stmts {
+		var cs []c16ConcAttr
+		for _, a := range st {
+			ca := c16ConcAttr{Fn: it.sym[a.Fn], Name: it.sym[a.Name]}
+			for _, x := range a.Vals {
+				ca.Vals = append(ca.Vals, it.sym[x])
+			}
+			cs = append(cs, ca)
+		}
+		it.stmts = append(it.stmts, cs)
+	}
+	for _, s := range v.In.Authn {
+		it.authn = append(it.authn, it.sym[s])
+	}
+	it.expSubject = c16SafeSubjects[rng.Intn(len(c16SafeSubjects))]
+	it.ends = c16LifeEndsOf(v, nowSec-v.In.Age, rng)
+	it.assertion = c16LifeAssertion(c16BuildAssertion(&it.expSubject, true, it.stmts, it.authn), it.ends, nowSec-v.In.Age, it.d.root+"/saml/acs")
+}
+
 // c16MintItem runs the real minting code (saml.TimeNow is set by the caller).
 func c16MintItem(it *c16Item) {
 	if it.vec != nil && it.vec.In.Kind == "tracking" {
@@ -156,6 +188,23 @@ func c16MintItem(it *c16Item) {
 
 // c16CheckMinted verifies that the real token has the abstract shape the vector describes.
 func c16CheckMinted(it *c16Item, nowSec int64) error {
+	if it.lvec != nil {
+		m, err := c16PeekClaims(it.pristine)
+		if err != nil {
+			return err
+		}
+		num := func(k string) int64 {
+			n, _ := m[k].(json.Number)
+			v, _ := n.Int64()
+			return v
+		}
+		mint := nowSec - it.lvec.In.Age
+		if num("iat") != mint || num("nbf") != mint || num("exp") != mint+it.lvec.Pred.Exp {
+			return fmt.Errorf("minted token times iat=%d nbf=%d exp=%d relative to the mint, the model of JWTSessionCodec.New says 0 0 %d (%s)",
+				num("iat")-mint, num("nbf")-mint, num("exp")-mint, it.lvec.Pred.Exp, c16LifeText(it.lvec))
+		}
+		return nil
+	}
 	if it.vec == nil {
 		return nil
 	}
@@ -256,6 +305,79 @@ func c16JudgeTok(rep *Report, key string, v *c16Vec, res c16Result, expSubject s
 	}
 }
 
+func c16ReplayLife(it *c16Item, now time.Time, o c16Obs) map[string]any {
+	return map[string]any{"kind": "life", "vector": it.lvec, "cfg": it.lvec.Cfg, "token": it.token, "cookie_name": it.cookie,
+		"now": now.Format(time.RFC3339Nano), "observed": o, "expect_subject": it.expSubject, "symbols": it.sym,
+		"life_stmts": it.stmts, "life_authn": it.authn, "life_ends": it.ends,
+		"expect_attrs": c16Expected(it.stmts, it.authn, false), "expect_attrs_by_name": c16Expected(it.stmts, it.authn, true)}
+}
+
+// c16JudgeLife applies "no longer ago than the session lifetime" to a token this deployment's
+// CreateSession minted age seconds before it is presented, whatever ends the assertion stated.
+func c16JudgeLife(rep *Report, key string, v *c16LifeVec, o c16Obs, expSubject string, expF, expN map[string][]string, replay func() map[string]any) {
+	switch {
+	case v.Class == "MustReject" && o.Ran && v.Why["tooOld"]:
+		rep.Violation(key, fmt.Sprintf("request treated as authenticated (wrapped handler ran) by a session token this SP issued %d s ago although the session lifetime is %d s; %s",
+			v.In.Age, v.Cfg.Life, c16LifeText(v)), replay())
+		return
+	case v.Class == "MustReject" && o.Ran:
+		rep.Violation(key, fmt.Sprintf("request treated as authenticated (wrapped handler ran) by a session token presented %d s before it was issued; %s", -v.In.Age, c16LifeText(v)), replay())
+		return
+	case v.Class == "MustAccept" && !o.Ran:
+		what := fmt.Sprintf("outcome %s (status %d)", o.Outcome, o.Status)
+		if o.Panic != "" {
+			what = "panic: " + strings.SplitN(o.Panic, "\n", 2)[0]
+		}
+		rep.Violation(key, fmt.Sprintf("session token returned by this deployment's CreateSession, presented %d s after issue (lifetime %d s) and before every end the IdP stated (%s), yields no session: %s",
+			v.In.Age, v.Cfg.Life, c16LifeText(v), what), replay())
+		return
+	}
+	if o.Ran {
+		if o.Subject != expSubject {
+			rep.Violation(key+":subject", fmt.Sprintf("subject exposed to the application %q differs from the assertion's %q", o.Subject, expSubject), replay())
+			return
+		}
+		if !c16SameAttrs(o.Attrs, expF) {
+			if c16SameAttrs(o.Attrs, expN) {
+				rep.DriftCase(key, "attributes keyed by Name instead of FriendlyName", o.Attrs)
+			} else {
+				rep.Violation(key+":attrs", "attributes exposed to the application differ from those of the assertion that created the session", replay())
+				return
+			}
+		}
+	}
+	if o.Panic != "" {
+		rep.DriftCase(key, "panic", o.Panic)
+		return
+	}
+	if o.Outcome != v.Pred.Out {
+		rep.DriftCase(key, fmt.Sprintf("RequireAccount: model predicted %s (token end = issue + %d s; %s)", v.Pred.Out, v.Pred.Exp, c16LifeText(v)), o)
+	}
+}
+
+func c16RunLife(rep *Report, it *c16Item, now time.Time) {
+	v := it.lvec
+	o := c16Request(it.d, c16CookieHeader(it.cookie, it.token, it.rng), nil, it.d.m.RequireAccount)
+	rep.Eval(v.Class, it.key)
+	rep.Trace(1)
+	expF, expN := c16Expected(it.stmts, it.authn, false), c16Expected(it.stmts, it.authn, true)
+	// the model's claims, concretised, must be what the harness computed from the assertion
+	pred := map[string][]string{}
+	for k, vals := range v.Pred.Claims {
+		for _, x := range vals {
+			pred[it.sym[k]] = append(pred[it.sym[k]], it.sym[x])
+		}
+	}
+	if !c16SameAttrs(pred, expF) {
+		rep.Break("%s: model claims %v differ from the harness expectation %v", it.key, pred, expF)
+		return
+	}
+	c16JudgeLife(rep, it.key, v, o, it.expSubject, expF, expN, func() map[string]any { return c16ReplayLife(it, now, o) })
+	if h := hashKey(it.key); h[0] == '0' && h[1] == '0' && v.Class != "DontCare" {
+		rep.Sample(map[string]any{"key": it.key, "class": v.Class, "ends": it.ends, "age": v.In.Age, "model_token_end": v.Pred.Exp, "real_outcome": o.Outcome})
+	}
+}
+
 func TestC16(t *testing.T) {
 	rep := NewReport("C16")
 	defer rep.Finish(t)
@@ -265,13 +387,31 @@ func TestC16(t *testing.T) {
 		"two lifetimes, default/custom cookie name.  Each is concretised (real mint, or manual base64url/JSON assembly signed with crypto/rsa, crypto/ecdsa, crypto/hmac, " +
 		"ed25519), presented in a cookie to m.RequireAccount(handler) with jwt.TimeFunc pinned, and to RequestTracker.GetTrackedRequests under saml_<sub>.  " +
 		"(MAP) assertions (0-2 statements, 0-2 attributes with/without FriendlyName, 0-2 values, colliding names, absent subject / NameID, 0-2 AuthnStatements) are " +
-		"minted by CreateSession, presented fresh, and gated by RequireAttribute for 15+ (name, value) pairs.  non-trivial = class MustAccept or MustReject"
+		"minted by CreateSession, presented fresh, and gated by RequireAttribute for 15+ (name, value) pairs.  " +
+		"(LIFE) assertions with 0-2 AuthnStatements (SessionIndex present/absent, SessionNotOnOrAfter absent / before the mint / inside the lifetime / beyond it), " +
+		"Conditions and SubjectConfirmationData NotOnOrAfter in the same positions, minted by CreateSession and presented at 14 clock positions around the mint, " +
+		"the IdP-stated ends and mint + lifetime: nothing the assertion says may make the token authenticate a second or more past mint + lifetime.  " +
+		"non-trivial = class MustAccept or MustReject"
 	vecs, maps := c16LoadVecs(t, rep)
 	if rep.Broken != "" {
 		return
 	}
-	if len(vecs) == 0 || len(maps) == 0 {
-		rep.Break("no vectors (VEC=%d MAP=%d)", len(vecs), len(maps))
+	var lifes []*c16LifeVec
+	for _, l := range loadLines(t, "life.ndjson") {
+		v := &c16LifeVec{}
+		if err := json.Unmarshal(l, v); err != nil {
+			rep.Break("bad life vector: %v", err)
+			return
+		}
+		if len(v.In.Sna) != len(v.In.Authn) || len(v.At.Sna) != len(v.In.Sna) {
+			rep.Break("life vector with %d AuthnStatements, %d SessionNotOnOrAfter positions, %d offsets", len(v.In.Authn), len(v.In.Sna), len(v.At.Sna))
+			return
+		}
+		lifes = append(lifes, v)
+	}
+	sort.Slice(lifes, func(i, j int) bool { return c16LifeKey(lifes[i]) < c16LifeKey(lifes[j]) })
+	if len(vecs) == 0 || len(maps) == 0 || len(lifes) == 0 {
+		rep.Break("no vectors (VEC=%d MAP=%d LIFE=%d)", len(vecs), len(maps), len(lifes))
 		return
 	}
 	if saml.MaxIssueDelay != c16TrkLife*time.Second {
@@ -317,14 +457,52 @@ func TestC16(t *testing.T) {
 		}
 	}
 
-	// phase 1a: choose deployments / assertions (sequential: deterministic use of each item's rng)
-	for _, it := range items {
-		if it.vec != nil {
-			c16PrepareTok(env, it)
-		} else {
-			c16PrepareMap(env, it)
+	for _, v := range lifes {
+		k := c16LifeKey(v)
+		if seen[k] {
+			rep.Break("duplicate life vector key %s", k)
+			return
+		}
+		seen[k] = true
+		for r := 0; r < reps; r++ {
+			items = append(items, &c16Item{key: k, lvec: v, rng: newRand(fmt.Sprintf("%s/%d", k, r))})
 		}
 	}
+
+	// phase 1a: choose deployments / assertions (sequential: deterministic use of each item's rng)
+	lifeLate := map[string]int{}
+	for _, it := range items {
+		switch {
+		case it.vec != nil:
+			c16PrepareTok(env, it)
+		case it.mvec != nil:
+			c16PrepareMap(env, it)
+		default:
+			c16PrepareLife(env, it, nowSec)
+			if v := it.lvec; v.Class == "MustReject" && v.Why["tooOld"] {
+				for i, s := range v.In.Sna {
+					if s == "beyond" && v.In.Age < v.At.Sna[i] {
+						lifeLate["SessionNotOnOrAfter"]++
+						break
+					}
+				}
+				if v.In.Cond == "beyond" && v.In.Age < v.At.Cond {
+					lifeLate["Conditions"]++
+				}
+				if v.In.Scd == "beyond" && v.In.Age < v.At.Scd {
+					lifeLate["SubjectConfirmationData"]++
+				}
+			}
+		}
+	}
+	// vacuity of the new dimension: tokens older than the lifetime presented before a later IdP-stated end
+	for _, f := range []string{"SessionNotOnOrAfter", "Conditions", "SubjectConfirmationData"} {
+		if lifeLate[f] == 0 {
+			rep.Break("vacuous: no token older than the session lifetime is presented before a later %s end", f)
+			return
+		}
+	}
+	rep.Extra["older_than_lifetime_before_later_idp_end"] = lifeLate
 	// phase 1b: mint with the real code, grouped by mint clock (saml.TimeNow is a package variable)
 	type gk struct {
 		age int64
@@ -341,7 +519,9 @@ func TestC16(t *testing.T) {
 	for g := range groups {
 		gks = append(gks, g)
 	}
-	sort.Slice(gks, func(i, j int) bool { return gks[i].age < gks[j].age || (gks[i].age == gks[j].age && !gks[i].str && gks[j].str) })
+	sort.Slice(gks, func(i, j int) bool {
+		return gks[i].age < gks[j].age || (gks[i].age == gks[j].age && !gks[i].str && gks[j].str)
+	})
 	for _, g := range gks {
 		mintAt := time.Unix(nowSec-g.age, seedRng.Int63n(int64(time.Second)))
 		saml.TimeNow = func() time.Time { return mintAt }
@@ -401,10 +581,13 @@ func TestC16(t *testing.T) {
 	results := make([]c16Result, len(items))
 	parallel(len(items), func(i int) {
 		it := items[i]
-		if it.vec != nil {
+		switch {
+		case it.vec != nil:
 			c16RunTok(rep, it, now, &results[i])
-		} else {
+		case it.mvec != nil:
 			c16RunMap(rep, it, now)
+		default:
+			c16RunLife(rep, it, now)
 		}
 	})
 	for i, it := range items {
@@ -413,7 +596,7 @@ func TestC16(t *testing.T) {
 		}
 	}
 	rep.Extra["session_tokens_accepted_by_tracked_request_codec"] = trkSessAccepted
-	rep.Extra["vectors"] = map[string]int{"VEC": len(vecs), "MAP": len(maps)}
+	rep.Extra["vectors"] = map[string]int{"VEC": len(vecs), "MAP": len(maps), "LIFE": len(lifes)}
 	rep.Extra["now"] = now.Format(time.RFC3339Nano)
 	rep.Assume("signatures of crafted tokens use crypto/rand nonces (ECDSA, PSS); verdicts do not depend on them and replay files store the exact token")
 	rep.Assume("the tracked-request codec refusing session tokens is checked as conformance with the model (drift), not as a C16 violation: the statement has no clause about it")
@@ -559,7 +742,9 @@ func c16RunMap(rep *Report, it *c16Item, now time.Time) {
 				return
 			}
 		}
-		wrap := func(h http.Handler) http.Handler { return it.d.m.RequireAccount(samlsp.RequireAttribute(g.n, g.val)(h)) }
+		wrap := func(h http.Handler) http.Handler {
+			return it.d.m.RequireAccount(samlsp.RequireAttribute(g.n, g.val)(h))
+		}
 		og := c16Request(it.d, hdr, nil, wrap)
 		rep.Eval(class, gk)
 		if class == "MustReject" && og.Ran {
@@ -606,6 +791,9 @@ func init() {
 			MapClass      string              `json:"map_class"`
 			GateName      string              `json:"gate_name"`
 			GateValue     string              `json:"gate_value"`
+			LifeStmts     [][]c16ConcAttr     `json:"life_stmts"`
+			LifeAuthn     []string            `json:"life_authn"`
+			LifeEnds      c16LifeEnds         `json:"life_ends"`
 		}
 		if err := json.Unmarshal(raw, &r); err != nil {
 			t.Fatal(err)
@@ -635,6 +823,23 @@ func init() {
 			res.Obs = c16Request(d, hdr, nil, d.m.RequireAccount)
 			c16JudgeTok(rep, r.Key, &v, res, r.ExpectSubject, r.ExpectAttrs, r.ExpectByName, func() map[string]any { return nil })
 			return len(rep.Violations) > 0, fmt.Sprintf("class=%s handler_ran=%v outcome=%s subject=%q attrs=%v", v.Class, res.Obs.Ran, res.Obs.Outcome, res.Obs.Subject, res.Obs.Attrs)
+		case "life":
+			// the assertion is minted again by the code under test, age seconds before now
+			var v c16LifeVec
+			if err := json.Unmarshal(r.Vector, &v); err != nil {
+				t.Fatal(err)
+			}
+			mintSec := now.Unix() - v.In.Age
+			saml.TimeNow = func() time.Time { return time.Unix(mintSec, int64(now.Nanosecond())) }
+			a := c16LifeAssertion(c16BuildAssertion(&r.ExpectSubject, true, r.LifeStmts, r.LifeAuthn), r.LifeEnds, mintSec, d.root+"/saml/acs")
+			tok, err := c16Mint(d, a)
+			if err != nil {
+				t.Fatal(err)
+			}
+			saml.TimeNow = func() time.Time { return now }
+			o := c16Request(d, r.CookieName+"="+tok, nil, d.m.RequireAccount)
+			c16JudgeLife(rep, r.Key, &v, o, r.ExpectSubject, r.ExpectAttrs, r.ExpectByName, func() map[string]any { return nil })
+			return len(rep.Violations) > 0, fmt.Sprintf("class=%s age=%d lifetime=%d handler_ran=%v outcome=%s subject=%q", v.Class, v.In.Age, v.Cfg.Life, o.Ran, o.Outcome, o.Subject)
 		case "map":
 			o := c16Request(d, hdr, nil, d.m.RequireAccount)
 			bad := !o.Ran || o.Subject != r.ExpectSubject ||
